@@ -910,7 +910,7 @@ func TestC10(t *testing.T) {
 	rapid.Check(t, func(t *rapid.T) {
 		base := c10Base(t)
 		var qf qframe.QFrame
-		start := rapid.IntRange(0, 16).Draw(t, "start")
+		start := rapid.IntRange(0, 18).Draw(t, "start")
 		startDesc := "derived frame"
 		switch start {
 		case 0:
@@ -947,6 +947,15 @@ func TestC10(t *testing.T) {
 		case 6:
 			qf = qframe.ReadCSV(strings.NewReader("a,b\n1,2\n"), csv.Types(map[string]string{"a": "int"}), csv.EnumValues(map[string][]string{"a": {"1"}}))
 			startDesc = "ReadCSV with enum values for a column declared int"
+		case 8:
+			// option values that served a successful read before: the declared enum values still hold for the next read
+			typs := csv.Types(map[string]string{"a": "enum"})
+			vals := csv.EnumValues(map[string][]string{"a": {"x", "y"}})
+			if first := qframe.ReadCSV(strings.NewReader("a\nx\ny\n"), typs, vals); first.Err != nil {
+				t.Fatalf("ReadCSV with declared enum values failed: %v", first.Err)
+			}
+			qf = qframe.ReadCSV(strings.NewReader("a\nx\nhuge\n"), typs, vals)
+			startDesc = "second ReadCSV with the same Types/EnumValues option values, now with an undeclared value"
 		case 7:
 			doc := rapid.SampledFrom([]string{`[{"a":1},{"a":"x"}]`, `[{"a":1,"b":true},{"a":1}]`, `[{"a":[1]}]`, `[{"a":{"b":1}}]`, `[1,2]`, `{"a":1}`, `[{"a":true},{"a":1}]`,
 				`[{"a":"x"},{"a":null},{"a":3}]`, `[{"a":null},{"a":1}]`, `[{"a":"x"},{"a":true}]`}).Draw(t, "jsondoc")
@@ -956,7 +965,7 @@ func TestC10(t *testing.T) {
 			d := hx.GenDerived(t, base, 3)
 			qf = d.QF
 		}
-		if start <= 7 && qf.Err == nil {
+		if start <= 8 && qf.Err == nil {
 			t.Fatalf("%s did not report an error", startDesc)
 		}
 		nops := rapid.IntRange(1, 8).Draw(t, "nops")
